@@ -814,8 +814,11 @@ func (x *Exec) box(s *State, v *Term, t types.Type) *Term {
 	if v.S == SInt {
 		return Mk(IfaceSort, tag, v)
 	}
-	// boxed value: fresh payload p with unbox(p) = v
-	p := x.freshVar("box", SInt)
+	// boxed value: the payload is a function of the value (interface values holding equal values are equal, as in
+	// Go), with unbox(box(v)) = v
+	bf := "box_" + v.S.Mangle()
+	declareUF(bf, []*Sort{v.S}, SInt)
+	p := App(bf, SInt, v)
 	fn := "unbox_" + v.S.Mangle()
 	declareUF(fn, []*Sort{SInt}, v.S)
 	s.assume(Eq(App(fn, v.S, p), v))
